@@ -16,7 +16,7 @@ import (
 // BuildError constructs a concrete Go error value from an error expression:
 //
 //	E    := kind | chain(E,E,...) | wrap(E) | join(E,...) | msg(E) | redir(code)
-//	kind := authn|authz|comm|timeout|arg|norule|internal|config|eof|deadline|urlerr
+//	kind := authn|authz|comm|timeout|arg|norule|internal|config|eof|deadline|canceled|urlerr|foreign
 //
 // chain(a,b,c) = errorchain.New(a).CausedBy(b).CausedBy(c); wrap = fmt.Errorf("%w");
 // join = errors.Join; msg = errorchain.NewWithMessage; redir = *heimdall.RedirectError.
@@ -111,6 +111,8 @@ func (p *parser) parse() (error, error) {
 		return io.EOF, nil
 	case "deadline":
 		return context.DeadlineExceeded, nil
+	case "canceled":
+		return context.Canceled, nil
 	case "urlerr":
 		return &url.Error{Op: "Get", URL: "http://x.invalid", Err: errForeign}, nil
 	case "foreign":
